@@ -189,4 +189,319 @@ theorem cview_fold (T : List Cmd) (hT : ∀ c ∈ T, isSetCmd c = true) (u : Gea
     rw [ih (fun c' h => hT c' (by simp [h])), cview_execSt u c (hT c (by simp))]
 
 
+theorem setTc_cview (v : CView) (a : Addr) (tc : Nat) (htc : tc < 65536) :
+    let v' := [Cmd.dtr0 (tc % 256), .dtr1 (tc / 256), .setTempTc a, .activate a].foldl CView.cstep v
+    v'.dtr0 = tc % 256 ∧ v'.dtr1 = tc / 256 ∧
+    v'.coolest = v.coolest ∧ v'.warmest = v.warmest ∧
+    v'.physCoolest = v.physCoolest ∧ v'.physWarmest = v.physWarmest ∧
+    (if v.isDt8 a = true then
+      v'.tc = (if tc = MASK16 then v.tc else Gear.clamp v.coolest v.warmest tc) ∧ v'.tempTc = MASK16
+     else v'.tc = v.tc ∧ v'.tempTc = v.tempTc) := by
+  intro v'
+  have hsum : tc / 256 * 256 + tc % 256 = tc := by omega
+  simp only [v', List.foldl_cons, List.foldl_nil, CView.cstep, CView.isDt8, hsum]
+  refine ⟨trivial, trivial, trivial, trivial, trivial, trivial, ?_⟩
+  by_cases hd : (addrOf v.short v.groups a && v.types.contains 8) = true
+  · simp only [hd, if_true, true_and, ne_eq]
+    by_cases hm : tc = MASK16
+    · simp only [hm, not_true_eq_false, if_false, if_true, and_self]
+    · simp only [hm, not_false_eq_true, if_false, if_true, and_self]
+  · have hd' : (addrOf v.short v.groups a && v.types.contains 8) = false := by simpa using hd
+    simp only [hd', Bool.false_eq_true, if_false, false_and, and_self]
+
+theorem tcBytes_nat (tc : Nat) (htc : tc < 65536) :
+    tcBytes (.int (tc : Int)) = .ok (tc % 256, tc / 256) := by
+  show (if tc < 65536 then _ else _) = _
+  rw [if_pos htc]
+
+theorem setTc_trace (b : Bus) (a : Addr) (tc : Nat) (htc : tc < 65536) :
+    (runBus (setTc (.addr a) (.int tc)) b).res = .ret () ∧
+      (runBus (setTc (.addr a) (.int tc)) b).trace
+        = [.dtr0 (tc % 256), .dtr1 (tc / 256), .setTempTc a, .activate a] := by
+  simp only [runBus, setTc, withDest, Dest.resolve, tcBytes_nat tc htc, Prog.tell, Prog.run, and_self]
+
+theorem setTcPost_holds (b : Bus) (a : Addr) (tc : Nat) (htc : tc < 65536) :
+    setTcPost b a tc (runBus (setTc (.addr a) (.int tc)) b) = true := by
+  have hst := runBus_st (setTc (.addr a) (.int tc)) b
+  have hres := setTc_trace b a tc htc
+  obtain ⟨r1, r2⟩ := hres
+  rw [r2] at hst
+  unfold setTcPost
+  rw [r1, r2, hst]
+  simp only [beq_self_eq_true, Bool.true_and, List.length_map, all_zip_map, List.all_eq_true]
+  intro u hu
+  have hset : ∀ c ∈ [Cmd.dtr0 (tc % 256), .dtr1 (tc / 256), .setTempTc a, .activate a], isSetCmd c = true := by
+    intro c hc; simp at hc; rcases hc with rfl | rfl | rfl | rfl <;> rfl
+  have hv := cview_fold _ hset u
+  have hc := setTc_cview u.cview a tc htc
+  simp only [] at hc
+  rw [← hv, cview_isDt8] at hc
+  obtain ⟨c1, c2, c3, c4, c5, c6, c7⟩ := hc
+  have hd8 : (u.addressed a && u.types.contains 8) = u.isDt8 a := rfl
+  rw [hd8]
+  by_cases hd : u.isDt8 a = true
+  · simp only [hd, if_true] at c7 ⊢
+    simp only [Bool.and_eq_true, beq_iff_eq]
+    exact ⟨⟨c1, c2⟩, ⟨⟨⟨⟨⟨c7.1, c7.2⟩, c3⟩, c4⟩, c5⟩, c6⟩⟩
+  · simp only [hd, if_false] at c7 ⊢
+    simp only [colourUntouched, Bool.and_eq_true, beq_iff_eq, Bool.false_eq_true, if_false]
+    exact ⟨⟨c1, c2⟩, ⟨⟨⟨⟨⟨c7.1, c7.2⟩, c3⟩, c4⟩, c5⟩, c6⟩⟩
+
+theorem dtrArg_nat (w : Nat) (hw : w ≤ 255) : dtrArg (.int (w : Int)) = .ok w := by
+  show (if w ≤ 255 then _ else _) = _
+  rw [if_pos hw]
+
+theorem setTcLimit_cview (v : CView) (a : Addr) (w tc : Nat) (htc : tc < 65536) :
+    let v' := [Cmd.dtr0 (tc % 256), .dtr1 (tc / 256), .dtr2 w, .storeTcLimit a].foldl CView.cstep v
+    v'.tc = v.tc ∧ v'.tempTc = v.tempTc ∧
+    v'.coolest = (if v.isDt8 a = true ∧ w = 0 then tc else v.coolest) ∧
+    v'.warmest = (if v.isDt8 a = true ∧ w = 1 then tc else v.warmest) ∧
+    v'.physCoolest = (if v.isDt8 a = true ∧ w = 2 then tc else v.physCoolest) ∧
+    v'.physWarmest = (if v.isDt8 a = true ∧ w = 3 then tc else v.physWarmest) := by
+  intro v'
+  have hsum : tc / 256 * 256 + tc % 256 = tc := by omega
+  simp only [v', List.foldl_cons, List.foldl_nil, CView.cstep, CView.isDt8, hsum]
+  exact ⟨trivial, trivial, rfl, rfl, rfl, rfl⟩
+
+theorem setTcLimit_trace (b : Bus) (a : Addr) (w tc : Nat) (hw : w ≤ 255) (htc : tc < 65536) :
+    (runBus (setTcLimit (.addr a) (.int w) (.int tc)) b).res = .ret () ∧
+      (runBus (setTcLimit (.addr a) (.int w) (.int tc)) b).trace
+        = [.dtr0 (tc % 256), .dtr1 (tc / 256), .dtr2 w, .storeTcLimit a] := by
+  simp only [runBus, setTcLimit, withDest, Dest.resolve, tcBytes_nat tc htc, dtrArg_nat w hw, Prog.tell,
+    Prog.run, and_self]
+
+theorem setTcLimitPost_holds (b : Bus) (a : Addr) (w tc : Nat) (hw : w < 4) (htc : tc < 65536) :
+    setTcLimitPost b a w tc (runBus (setTcLimit (.addr a) (.int w) (.int tc)) b) = true := by
+  have hst := runBus_st (setTcLimit (.addr a) (.int w) (.int tc)) b
+  obtain ⟨r1, r2⟩ := setTcLimit_trace b a w tc (by omega) htc
+  rw [r2] at hst
+  unfold setTcLimitPost
+  rw [r1, r2, hst]
+  simp only [beq_self_eq_true, Bool.true_and, List.length_map, all_zip_map, List.all_eq_true]
+  intro u hu
+  have hset : ∀ c ∈ [Cmd.dtr0 (tc % 256), .dtr1 (tc / 256), .dtr2 w, .storeTcLimit a], isSetCmd c = true := by
+    intro c hc; simp at hc; rcases hc with rfl | rfl | rfl | rfl <;> rfl
+  have hv := cview_fold _ hset u
+  have hc := setTcLimit_cview u.cview a w tc htc
+  simp only [] at hc
+  rw [← hv, cview_isDt8] at hc
+  obtain ⟨c1, c2, c3, c4, c5, c6⟩ := hc
+  have hd8 : (u.addressed a && u.types.contains 8) = u.isDt8 a := rfl
+  rw [hd8]
+  by_cases hd : u.isDt8 a = true
+  · simp only [hd, true_and, if_true] at c3 c4 c5 c6 ⊢
+    simp only [Bool.and_eq_true, beq_iff_eq]
+    exact ⟨⟨⟨⟨⟨c1, c2⟩, c3⟩, c4⟩, c5⟩, c6⟩
+  · simp only [hd, false_and, if_false] at c3 c4 c5 c6 ⊢
+    simp only [colourUntouched, Bool.and_eq_true, beq_iff_eq, Bool.false_eq_true, if_false]
+    exact ⟨⟨⟨⟨⟨c1, c2⟩, c3⟩, c4⟩, c5⟩, c6⟩
+
+theorem queryColourStreamPost_holds (answers : Nat → Resp) (a : Addr) (sel : Nat) :
+    queryColourStreamPost answers (runStream (queryColour (.addr a) (some sel)) answers) = true := by
+  simp only [queryColourStreamPost, runStream, queryColour, withDest, Dest.resolve, Prog.tell, Prog.run,
+    streamStep]
+  cases h2 : answers 2 <;> cases h3 : answers 3 <;> simp [Prog.run]
+  rename_i m l
+  by_cases hm : m = 255 <;> simp [hm, Prog.run]
+
+/-! ### QueryDT8ColourValue against the bus -/
+
+/-- registers are 16 bits wide -/
+def ColourWF (b : Bus) : Prop :=
+  ∀ u ∈ b, ∀ sel v, ({ u with reportTc := u.tc } : Gear).colourReg sel = some v → v < 65536
+
+/-- the unit as QUERY COLOUR VALUE finds it: after QUERY ACTUAL LEVEL, DTR0 := sel, ENABLE DEVICE TYPE 8 -/
+def preQcv (a : Addr) (sel : Nat) (u : Gear) : Gear :=
+  (((u.execSt (.queryActualLevel a)).execSt (.dtr0 sel)).step (.enableDT 8)).2
+
+theorem preQcv_fields (a : Addr) (sel : Nat) (u : Gear) :
+    (preQcv a sel u).short = u.short ∧ (preQcv a sel u).groups = u.groups ∧
+    (preQcv a sel u).types = u.types ∧ (preQcv a sel u).dtr0 = sel ∧
+    (preQcv a sel u).enabledDT = some 8 ∧
+    (u.addressed a = true → ∀ s, (preQcv a sel u).colourReg s = ({ u with reportTc := u.tc } : Gear).colourReg s) := by
+  unfold preQcv
+  rw [execSt_qal, execSt_dtr0]
+  by_cases h : u.addressed a = true
+  · simp only [h, if_true]
+    exact ⟨rfl, rfl, rfl, rfl, rfl, fun _ s => rfl⟩
+  · simp only [h, if_false]
+    exact ⟨rfl, rfl, rfl, rfl, rfl, fun h' => by simp_all⟩
+
+theorem preQcv_addressed (a : Addr) (sel : Nat) (u : Gear) : (preQcv a sel u).addressed a = u.addressed a := by
+  obtain ⟨h1, h2, _⟩ := preQcv_fields a sel u
+  rw [addressed_eq, h1, h2, ← addressed_eq]
+
+theorem step_qcv_resp (w : Gear) (a : Addr) :
+    (w.step (.queryColourValue a)).1 =
+      if w.dt8 a = true then (match w.colourReg w.dtr0 with | some v => some (v / 256) | none => some 255)
+      else none := by
+  simp only [Gear.step]
+  split
+  · split <;> simp_all
+  · rfl
+
+theorem step_qcv_st (w : Gear) (a : Addr) :
+    ((w.step (.queryColourValue a)).2).short = w.short ∧ ((w.step (.queryColourValue a)).2).groups = w.groups ∧
+    ((w.step (.queryColourValue a)).2).dtr0 =
+      (if w.dt8 a = true then (match w.colourReg w.dtr0 with | some v => v % 256 | none => 255) else w.dtr0) := by
+  simp only [Gear.step]
+  split
+  · split <;> simp_all [Gear.tick]
+  · simp [Gear.tick]
+
+/-- the run, in terms of the two answers -/
+theorem queryColour_run (b : Bus) (a : Addr) (sel : Nat) :
+    let bE := b.map (preQcv a sel)
+    let msb := (Bus.frame bE (.queryColourValue a)).1
+    let b3 := (Bus.frame bE (.queryColourValue a)).2
+    let lsb := (Bus.frame b3 (.queryContentDTR0 a)).1
+    (runBus (queryColour (.addr a) (some sel)) b).trace
+        = [.queryActualLevel a, .dtr0 sel, .queryColourValue a, .queryContentDTR0 a] ∧
+    (runBus (queryColour (.addr a) (some sel)) b).res =
+      (match msb, lsb with
+       | .byte m, .byte l => if m = 255 then .ret none else .ret (some (l + 256 * m))
+       | _, _ => .ret none) := by
+  intro bE msb b3 lsb
+  have hbE : (Bus.frame (Bus.exec (Bus.exec b (.queryActualLevel a)).2 (.dtr0 sel)).2 (.enableDT 8)).2 = bE := by
+    simp only [Bus.exec_st, Bus.frame, List.map_map, bE]
+    rfl
+  simp only [runBus, queryColour, withDest, Dest.resolve, Prog.tell, Prog.run]
+  have hx : Bus.exec (Bus.exec (Bus.exec b (.queryActualLevel a)).2 (.dtr0 sel)).2 (.queryColourValue a)
+      = Bus.frame bE (.queryColourValue a) := by
+    rw [← hbE]; rfl
+  rw [hx, exec_of_dt0 _ (.queryContentDTR0 a) rfl]
+  constructor
+  · cases hm : (Bus.frame bE (.queryColourValue a)).1 <;>
+      cases hl : (Bus.frame (Bus.frame bE (.queryColourValue a)).2 (.queryContentDTR0 a)).1 <;>
+      simp [Prog.run]
+    rename_i m l
+    by_cases h : m = 255 <;> simp [h, Prog.run]
+  · simp only [msb, lsb, b3]
+    cases hm : (Bus.frame bE (.queryColourValue a)).1 <;>
+      cases hl : (Bus.frame (Bus.frame bE (.queryColourValue a)).2 (.queryContentDTR0 a)).1 <;>
+      simp [Prog.run]
+    rename_i m l
+    by_cases h : m = 255 <;> simp [h, Prog.run]
+
+theorem qcv_answers (b : Bus) (a : Addr) (sel : Nat) :
+    let bE := b.map (preQcv a sel)
+    let A := (b.filter (·.addressed a)).map (preQcv a sel)
+    (Bus.frame bE (.queryColourValue a)).1 = combine (A.filterMap (fun w => (w.step (.queryColourValue a)).1)) ∧
+    (Bus.frame (Bus.frame bE (.queryColourValue a)).2 (.queryContentDTR0 a)).1 =
+      combine ((A.map (fun w => (w.step (.queryColourValue a)).2)).filterMap
+        (fun w => (w.step (.queryContentDTR0 a)).1)) := by
+  intro bE A
+  have hA : bE.filter (·.addressed a) = A :=
+    filter_map_of_pres (preQcv a sel) (·.addressed a) b (preQcv_addressed a sel)
+  constructor
+  · rw [frame_resp_filter bE (.queryColourValue a) (·.addressed a), hA]
+    intro u hu
+    rw [step_qcv_resp]
+    simp [Gear.dt8, hu]
+  · rw [frame_resp_filter _ (.queryContentDTR0 a) (·.addressed a)]
+    · congr 2
+      simp only [Bus.frame]
+      rw [filter_map_of_pres _ (·.addressed a) bE, hA]
+      intro w
+      obtain ⟨h1, h2, _⟩ := step_qcv_st w a
+      rw [addressed_eq, h1, h2, ← addressed_eq]
+    · intro u hu
+      simp [Gear.step, hu]
+
+def colourKey (u : Gear) : Nat × Nat × Nat × Nat × Nat × Nat :=
+  (u.tc, u.tempTc, u.coolest, u.warmest, u.physCoolest, u.physWarmest)
+
+theorem colourKey_qal (u : Gear) (a : Addr) : colourKey (u.execSt (.queryActualLevel a)) = colourKey u := by
+  rw [execSt_qal]; split <;> rfl
+theorem colourKey_dtr0 (u : Gear) (v : Nat) : colourKey (u.execSt (.dtr0 v)) = colourKey u := rfl
+theorem colourKey_qcd (u : Gear) (a : Addr) : colourKey (u.execSt (.queryContentDTR0 a)) = colourKey u := by
+  rw [execSt_qcd]; rfl
+theorem colourKey_qcv (u : Gear) (a : Addr) : colourKey (u.execSt (.queryColourValue a)) = colourKey u := by
+  rw [execSt_qcv]
+  split
+  · split <;> rfl
+  · rfl
+
+theorem colour_pres (u : Gear) (a : Addr) (sel : Nat) :
+    colourUntouched u
+      ([Cmd.queryActualLevel a, .dtr0 sel, .queryColourValue a, .queryContentDTR0 a].foldl Gear.execSt u) = true := by
+  simp only [List.foldl_cons, List.foldl_nil]
+  have h : colourKey ((((u.execSt (.queryActualLevel a)).execSt (.dtr0 sel)).execSt (.queryColourValue a)).execSt
+      (.queryContentDTR0 a)) = colourKey u := by
+    rw [colourKey_qcd, colourKey_qcv, colourKey_dtr0, colourKey_qal]
+  simp only [colourKey, Prod.mk.injEq] at h
+  obtain ⟨h1, h2, h3, h4, h5, h6⟩ := h
+  simp only [colourUntouched, Bool.and_eq_true, beq_iff_eq]
+  exact ⟨⟨⟨⟨⟨h1, h2⟩, h3⟩, h4⟩, h5⟩, h6⟩
+
+theorem step_qcd_resp (w : Gear) (a : Addr) :
+    (w.step (.queryContentDTR0 a)).1 = if w.addressed a = true then some w.dtr0 else none := by
+  simp [Gear.step]
+
+theorem queryColourPost_holds (b : Bus) (hwf : ColourWF b) (a : Addr) (sel : Nat) :
+    queryColourPost b a sel (runBus (queryColour (.addr a) (some sel)) b) = true := by
+  have hst := runBus_st (queryColour (.addr a) (some sel)) b
+  obtain ⟨htr, hres⟩ := queryColour_run b a sel
+  obtain ⟨hm, hl⟩ := qcv_answers b a sel
+  rw [htr] at hst
+  unfold queryColourPost
+  rw [htr, hst]
+  simp only [beq_self_eq_true, Bool.true_and, List.length_map, all_zip_map, Bool.and_eq_true,
+    List.all_eq_true]
+  refine ⟨?_, fun u _ => colour_pres u a sel⟩
+  rw [hres, hm, hl]
+  cases hf : b.filter (·.addressed a) with
+  | nil => simp [combine]
+  | cons u rest =>
+    have hadd : u.addressed a = true := by
+      have : u ∈ b.filter (·.addressed a) := by rw [hf]; simp
+      simpa using (List.mem_filter.mp this).2
+    have hub : u ∈ b := by
+      have : u ∈ b.filter (·.addressed a) := by rw [hf]; simp
+      exact (List.mem_filter.mp this).1
+    obtain ⟨p1, p2, p3, p4, p5, p6⟩ := preQcv_fields a sel u
+    have hpa : (preQcv a sel u).addressed a = true := by rw [preQcv_addressed]; exact hadd
+    have hdt : (preQcv a sel u).dt8 a = u.types.contains 8 := by
+      simp [Gear.dt8, hpa, p5, p3]
+    cases rest with
+    | cons u2 r2 =>
+      -- two units answer QUERY CONTENT DTR0: framing error
+      have hadd2 : u2.addressed a = true := by
+        have : u2 ∈ b.filter (·.addressed a) := by rw [hf]; simp
+        simpa using (List.mem_filter.mp this).2
+      have hq : ∀ w : Gear, w.addressed a = true →
+          ((w.step (.queryColourValue a)).2.step (.queryContentDTR0 a)).1
+            = some ((w.step (.queryColourValue a)).2).dtr0 := by
+        intro w hw
+        rw [step_qcd_resp]
+        obtain ⟨h1, h2, _⟩ := step_qcv_st w a
+        rw [addressed_eq, h1, h2, ← addressed_eq, hw]; rfl
+      have hpa2 : (preQcv a sel u2).addressed a = true := by rw [preQcv_addressed]; exact hadd2
+      generalize combine (List.filterMap (fun w => (w.step (.queryColourValue a)).1)
+          (List.map (preQcv a sel) (u :: u2 :: r2))) = M
+      simp only [List.map_cons, List.filterMap_cons, hq _ hpa, hq _ hpa2, combine_two]
+      cases M <;> simp
+    | nil =>
+      simp only [List.map_cons, List.map_nil, List.filterMap_cons, List.filterMap_nil]
+      rw [step_qcv_resp, step_qcd_resp]
+      obtain ⟨s1, s2, s3⟩ := step_qcv_st (preQcv a sel u) a
+      have hpa3 : ((preQcv a sel u).step (.queryColourValue a)).2.addressed a = true := by
+        rw [addressed_eq, s1, s2, ← addressed_eq]; exact hpa
+      simp only [hpa3, if_true, s3, hdt, p4, p6 hadd]
+      by_cases h8 : u.types.contains 8 = true
+      · simp only [h8, if_true]
+        cases hreg : ({ u with reportTc := u.tc } : Gear).colourReg sel with
+        | none => simp [combine]
+        | some v =>
+          have hv : v < 65536 := hwf u hub sel v hreg
+          simp only [combine]
+          by_cases hhi : v / 256 < 255
+          · have : ¬ v / 256 = 255 := by omega
+            have hsum : v % 256 + 256 * (v / 256) = v := by omega
+            simp [hhi, this, hsum]
+          · have : v / 256 = 255 := by omega
+            simp [hhi, this]
+      · have h8' : ¬ 8 ∈ u.types := by simpa using h8
+        simp [h8', combine]
+
 end DaliVerif.GearSeq
